@@ -79,8 +79,8 @@ def main(argv):
     if bins:
         if ok or os.path.exists(os.path.join(COQ, "theories/C30/Corr.vo")):
             cases = [c for c in run(ck, bins["c30"], "corr", ck.scale(15, 200)) if "obs" in c]
-            failing = ck.coq_failing("corr", [to_case(c) for c in cases], ["Coq.Lists.List", "EV.C30.Corr"], case_type="case",
-                                     prelude="Import ListNotations. Local Close Scope N_scope. Local Open Scope nat_scope.")
+            failing = ck.coq_failing("corr", [to_case(c) for c in cases], ["Coq.Lists.List", "Coq.NArith.NArith", "EV.C30.Corr"], case_type="case",
+                                     prelude="Import ListNotations.")
             for i in failing or []:
                 ck.tie_broken("model/implementation disagreement at quiescence (C30)", json.dumps(cases[i])[:3000])
             for c in cases:
